@@ -11,7 +11,7 @@ import (
 // C10 - inheritance: the most-derived block wins, Super reaches the parent.
 
 type belem struct {
-	kind string // text super block var tick
+	kind string // text super block var tick setv
 	text string
 	name string // nested block name (kind block)
 	wrap string // "", if1, if0, for
@@ -48,9 +48,15 @@ func (g *c10Gen) defBody(t *btmpl, name string, allowSuper bool, depth int, know
 		case k < 6 && allowSuper:
 			out = append(out, belem{kind: "super"})
 		case k == 6:
-			if g.r.Bool() {
+			if k3 := g.r.Intn(4); k3 == 0 {
 				// a definition whose rendering differs every time it is rendered (a counting function)
 				out = append(out, belem{kind: "tick"})
+			} else if k3 == 1 {
+				// a binding made between two places (e.g. two block.Super calls) that read it
+				g.ntxt++
+				out = append(out, belem{kind: "setv", text: fmt.Sprintf("s%d", g.ntxt)})
+			} else if k3 == 2 {
+				out = append(out, belem{kind: "var", text: "sv"})
 			} else {
 				out = append(out, belem{kind: "var", text: g.r.Pick([]string{"v", "i"})})
 			}
@@ -90,6 +96,8 @@ func c10Src(t *btmpl, elems []belem) string {
 			sb.WriteString("{{ " + e.text + " }}")
 		case "tick":
 			sb.WriteString("{{ tick() }}")
+		case "setv":
+			sb.WriteString("{% set sv = \"" + e.text + "\" %}")
 		case "block":
 			b := "{% block " + e.name + " %}" + c10Src(t, t.defs[e.name]) + "{% endblock %}"
 			switch e.wrap {
@@ -150,10 +158,18 @@ func (r *c10Ref) elems(t *btmpl, es []belem, blockName string, defIdx int) {
 		case "tick":
 			r.ticks++
 			fmt.Fprintf(&r.out, "#%d", r.ticks)
+		case "setv":
+			r.vars["sv"] = e.text
 		case "super":
 			if defIdx > 0 {
+				// the parent definition runs in a scope of its own: it sees the bindings as they are NOW; what it binds is gone afterwards
+				saved := map[string]string{}
+				for k, v := range r.vars {
+					saved[k] = v
+				}
 				ds := r.defsOf(blockName)
 				r.elems(ds[defIdx-1], ds[defIdx-1].defs[blockName], blockName, defIdx-1)
+				r.vars = saved
 			}
 		case "block":
 			render := func() {
@@ -164,14 +180,19 @@ func (r *c10Ref) elems(t *btmpl, es []belem, blockName string, defIdx int) {
 			switch e.wrap {
 			case "if0":
 			case "for":
-				saved := r.vars["i"]
+				// one scope per loop, copied from the enclosing one (what an iteration binds is seen by the next one, not after the loop)
+				saved := r.vars
+				r.vars = map[string]string{}
+				for k, v := range saved {
+					r.vars[k] = v
+				}
 				for _, it := range []string{"a", "b"} {
 					r.vars["i"] = it
 					r.out.WriteString("<")
 					render()
 					r.out.WriteString(">")
 				}
-				r.vars["i"] = saved
+				r.vars = saved
 			default:
 				render()
 			}
@@ -191,6 +212,7 @@ func c10ExpectedTimes(chain []*btmpl, times int) []string {
 	var outs []string
 	for k := 0; k < times; k++ {
 		r.out.Reset()
+		r.vars = map[string]string{"v": "V", "i": ""} // every rendering is an execution context of its own (only the counter is shared)
 		r.elems(chain[0], chain[0].doc, "", 0)
 		if r.cyclic {
 			outs = append(outs, c10Cyclic)
@@ -226,6 +248,7 @@ func c10ExpectedBlocks(chain []*btmpl, names []string) (map[string]string, bool)
 	}
 	r := &c10Ref{chain: chain, vars: map[string]string{"v": "V", "i": ""}}
 	for i := len(chain) - 1; i >= 0; i-- {
+		r.vars = map[string]string{"v": "V", "i": ""} // ExecuteBlocks makes one execution context per template of the chain
 		for _, n := range names {
 			if _, done := res[n]; done {
 				continue
@@ -313,7 +336,68 @@ func (g *c10Gen) child(parent *btmpl, chain []*btmpl, file string) *btmpl {
 	return t
 }
 
+// c10ChildOptions: TrimBlocks / LStripBlocks set on a child template govern the text of the child's own block
+// definitions (the base keeps its own), through Execute and ExecuteBlocks, also one level further down.
+func c10ChildOptions(c *C) {
+	r := c.R
+	files := map[string]string{
+		"/base.tpl": "[{% block a %}base{% endblock %}|{% block b %}\nB  {% if 1 %}\nb{% endif %}{% endblock %}]",
+		"/mid.tpl":  "{% extends \"/base.tpl\" %}{% block a %}\nmid-a  {% if 1 %}\nyes{% endif %}{% endblock %}",
+		"/leaf.tpl": "{% extends \"/mid.tpl\" %}{% block a %}\nleaf-a \t{% if 1 %}\n<{{ block.Super }}>{% endif %}{% endblock %}",
+	}
+	set, _ := newSet(files)
+	which := r.Pick([]string{"/mid.tpl", "/leaf.tpl"})
+	tpl, err := set.FromFile(which)
+	if err != nil {
+		c.Fail("compile-error", D{"files": files, "error": err.Error()})
+		return
+	}
+	tb, ls := r.Bool(), r.Bool()
+	switch r.Intn(3) {
+	case 0:
+		tpl.Options.TrimBlocks, tpl.Options.LStripBlocks = tb, ls
+	case 1:
+		tpl.Options.Update(&pongo2.Options{TrimBlocks: tb, LStripBlocks: ls})
+	default:
+		tpl.Options = &pongo2.Options{TrimBlocks: tb, LStripBlocks: ls}
+	}
+	strip := func(name string, own bool) string {
+		// text of a definition: "\nNAME<blanks>" + if-tag + "\nTAIL"
+		lead, blanks, nl := "\n", "  ", "\n"
+		if name == "leaf-a" {
+			blanks = " \t"
+		}
+		if own && tb {
+			lead, nl = "", ""
+		}
+		if own && ls {
+			blanks = ""
+		}
+		return lead + name + blanks + nl
+	}
+	midA := strip("mid-a", which == "/mid.tpl") + "yes"
+	a := midA
+	if which == "/leaf.tpl" {
+		a = strip("leaf-a", true) + "<" + strip("mid-a", false) + "yes>"
+	}
+	wantDoc := "[" + a + "|\nB  \nb]"
+	out, xerr := tpl.Execute(c10Ctx())
+	blocks, berr := tpl.ExecuteBlocks(c10Ctx(), []string{"a"})
+	c.Eval(2)
+	d := D{"files": files, "rendered": which, "TrimBlocks_on_that_template": tb, "LStripBlocks_on_that_template": ls, "output": q(out), "expected": q(wantDoc), "ExecuteBlocks_a": q(blocks["a"]), "expected_block_a": q(a), "error": errStr(xerr) + errStr(berr)}
+	if xerr != nil || berr != nil || out != wantDoc || blocks["a"] != a {
+		c.Fail("inheritance-mismatch", d)
+		return
+	}
+	c.Cover("child_template_options")
+	c.Nontrivial(fmt.Sprint("childopts", which, tb, ls))
+}
+
 func c10Run(c *C) {
+	if c.Idx%20 == 17 {
+		c10ChildOptions(c)
+		return
+	}
 	if c.Idx%10 == 9 {
 		c10Invalid(c)
 		return
